@@ -1271,8 +1271,14 @@ func (s *State) evalIntegerInfixExpression(operator token.Type, leftVal, rightVa
 	case token.ASTERISK:
 		return object.Integer{Value: leftVal * rightVal}
 	case token.SLASH:
+		if rightVal == 0 {
+			return s.NewError("division by zero")
+		}
 		return object.Integer{Value: leftVal / rightVal}
 	case token.PERCENT:
+		if rightVal == 0 {
+			return s.NewError("division by zero")
+		}
 		return object.Integer{Value: leftVal % rightVal}
 	case token.LEFTSHIFT:
 		return object.Integer{Value: leftVal << rightVal}
